@@ -108,16 +108,10 @@ class Gen:
         r = self.r
         ip = str(r.choice([0, 1, 12, 999, r.randrange(0, 10 ** 5)]))
         fp = "".join(r.choice(DIGITS) for _ in range(r.randrange(1, 7)))
-        k = r.random()
-        if k < 0.5:
-            body = ip + "." + fp
-        elif k < 0.6:
-            body = "." + fp
-        elif k < 0.7:
-            body = ip + "."
-        else:
-            body = ip + ("." + fp if r.random() < 0.6 else "")
-            body += r.choice("eE") + r.choice(["", "+", "-"]) + str(r.randrange(0, 30))
+        mant = r.choice([ip + "." + fp, ip + "." + fp, "." + fp, ip + ".", ip])
+        if mant == ip or r.random() < 0.4:
+            mant += r.choice("eE") + r.choice(["", "+", "-"]) + str(r.randrange(0, 30))
+        body = mant
         sg = r.choice(["", "", "+", "-"])
         txt = sg + body
         return txt, float(txt)
@@ -408,6 +402,41 @@ class Gen:
         finally:
             if layout_rng is not None:
                 self.r = save
+
+
+def literal_matrix(dialect):
+    """Systematic spellings of numbers and date/times (every combination of the optional parts),
+    valid or not in the dialect: texts only.  Used to drive lexer/decoder paths that depend on the
+    neighbouring characters (sign, exponent, '#', zone offsets, leap seconds)."""
+    out = []
+    for sg in ("", "+", "-"):
+        for mant in ("5", "12.", ".5", "1.25", "0"):
+            for ex in ("", "e3", "E+3", "e-3", "E03"):
+                out.append(sg + mant + ex)
+        for radix, digs in ((2, "101"), (8, "17"), (16, "fF"), (10, "99"), (3, "12"), (16, "G")):
+            out.append("%s%d#%s#" % (sg, radix, digs))
+            out.append("%d#%s%s#" % (radix, sg, digs))
+            out.append("%s%d#%s%s#" % (sg, radix, sg, digs))
+    dates = ["2001-01-01", "2001-001", "0999-12-31", "2000-366", "2001-366", "1998-12-31", "1998-365"]
+    times = ["10:00", "10:00:09", "23:59:59.5", "23:59:59.123456", "23:59:60", "23:59:60.5", "00:00:61", "24:00"]
+    zones = ["", "Z", "z", "+01", "-7", "+0130", "-0730", "+01:30", "+13", "+1"]
+    for t in times:
+        for z in zones:
+            out.append(t + z)
+    for d in dates:
+        out.append(d)
+        for z in ("Z", "+01"):
+            out.append(d + z)
+        for t in times[:6]:
+            for z in zones[:7]:
+                out.append(d + "T" + t + z)
+    return out
+
+
+def literal_contexts(lit):
+    return ["a = %s" % lit, "a = %s;b = 1\nEND\n" % lit, "a = (%s, 2)" % lit, "a = (1,%s)" % lit,
+            "a = {%s}" % lit, "a = %s <m>" % lit, "a=%s/* c */\nEND" % lit,
+            "GROUP = g\n  t = (1, %s)\nEND_GROUP\nEND\n" % lit]
 
 
 # --------------------------------------------------------------------- damage (C05 / C06)
